@@ -347,9 +347,9 @@ func (s *relaygenSys) Check(e Edge, obs []Obs) []Mismatch {
 		wantOK, _ := m["ok"].(bool)
 		gotOK, _ := o["ok"].(bool)
 		desc := fmt.Sprintf("%s generator, %v %v (range %d-%d, open %v)", s.kind, e.A["a"], canon(e.A), s.min, s.max, keysOf(s.open))
-		if sh, _ := o["shared"].(bool); sh && wantOK && toInt(m["port"]) > 0 && toInt(o["port"]) != toInt(m["port"]) {
-			// not the listed finding (a busy port that was asked for): the generator bound ANOTHER port than the free one
-			// this step asks for, and that one is in use already
+		if sh, _ := o["shared"].(bool); sh && wantOK && e.A["a"] == "AllocReq" && toInt(o["port"]) != toInt(e.A["port"]) {
+			// not the listed finding (a busy port that was asked for or drawn): the generator bound ANOTHER port than the
+			// free one this step names, and that one is in use already
 			_ = s.realign(e, m)
 			ms = append(ms, Mismatch{"relaygen", desc + fmt.Sprintf(": spec port %v (free), generator bound port %v, which was already in use", m["port"], o["port"])})
 
